@@ -287,12 +287,14 @@ impl Prop for C13 {
                 }));
             }
         }
+        let mut two_conn = false;
         {
             // two overlapping connections to a peer that stops answering, requests whose substreams
             // are being opened on them, then one (or both) of the connections is lost
             // (independent stream of the seed)
             let mut r = Rng::fork(seed, "c13-two-connections");
             if r.chance(1, 8) {
+                two_conn = true;
                 let (a, b) = (1u64, 2u64);
                 let t1 = 1_200 + r.below(600);
                 ops.push(json!({"at_ms": 20, "op": "connect", "node": a, "to": b}));
@@ -306,9 +308,9 @@ impl Prop for C13 {
                     }));
                 }
                 let t2 = t1 + 60 + r.below(300);
-                faults.push(json!({"at_ms": t2, "kind": "reset", "k": r.below(2)}));
+                faults.push(json!({"at_ms": t2, "kind": "reset_pair", "a": a, "b": b, "k": r.below(2)}));
                 if r.chance(1, 3) {
-                    faults.push(json!({"at_ms": t2 + r.below(500), "kind": "reset", "k": 0}));
+                    faults.push(json!({"at_ms": t2 + r.below(500), "kind": "reset_pair", "a": a, "b": b, "k": 0}));
                 }
                 faults.sort_by_key(|f| f["at_ms"].as_u64().unwrap_or(0));
             }
@@ -330,6 +332,10 @@ impl Prop for C13 {
             }
         };
         let mut knobs = gen_node_knobs(&mut rng);
+        if two_conn && knobs["keep_alive_ms"].as_u64().unwrap_or(5000) < 5000 {
+            // the two connections must still be there when the peer stalls
+            knobs["keep_alive_ms"] = json!(5000);
+        }
         // connection limits on some runs
         if rng.chance(1, 5) {
             knobs["max_out"] = json!(rng.range(1, 2));
